@@ -114,6 +114,7 @@ def ascii_header_parts(run):
 def r1_ascii_field(ctx):
     L = lab(ctx)
     init = L.init_fn
+    ctx.scope(L.init_W)
     expd = L.state.get("self._expdigits")
     want = len("%.1E" % 1.2) - ("%.1E" % 1.2).find("E") - 2
     if expd is None or is_unknown(expd) or const_int(expd) is None:
@@ -125,6 +126,7 @@ def r1_ascii_field(ctx):
     for layout in LAYOUTS:
         fn = wfn(ctx, "ascii", layout)
         run = first_regime(L.writer("ascii", layout))
+        ctx.scope(run.W if run is not None else None)
         hp = ascii_header_parts(run) if run is not None else None
         if hp is None:
             ctx.error(f"{fn.name}: matrix header line", fn, repr(run.header if run else None)[:200])
@@ -151,10 +153,14 @@ def r1_ascii_field(ctx):
                       None if ok else {"numlen": repr(numlen), "widest": repr(widest),
                                        "witness": "[[-1.5e-150, 2], [3, 4]] written with binary=False: the value takes numlen + 1 characters and fuses with its neighbour"},
                       key="C04-R1|OP4._write_ascii_header|numlen < digits + 8")
-            ok = is_rat(perline) and is_rat(numlen) and same(perline, F.fn("floordiv", F.const(80), numlen))
-            ctx.check(ok, "_write_ascii_header: perline = 80 // numlen (a line never exceeds 80 columns)", fn, None if ok else repr(perline), nontrivial=False)
+            # "perline = 80 // numlen" (lines of at most 80 columns) is a convention of the format, not a necessary condition of the round trip: the
+            # loader takes perline from the announcement, whatever it is.  Recorded when it holds, never reported (pass 3).  What is necessary - the
+            # announced perline is an integer the loader can parse back - is part of the header round trip below (int() of a quotient is a misread)
+            if is_rat(perline) and is_rat(numlen) and same(perline, F.fn("floordiv", F.const(80), numlen)):
+                ctx.ok("_write_ascii_header: perline = 80 // numlen (a line never exceeds 80 columns)", fn, nontrivial=False)
         # the loader recovers perline and numlen from the announcement and cuts lines of perline * numlen characters
         lr = L.load(run)
+        ctx.scope(run.W, lr.W)
         if not lr.block or lr.put is None:
             bad = lr.bads()
             if bad:
@@ -186,6 +192,7 @@ def r2_headers(ctx):
             ctx.error(f"{fn.name}: no admissible regime", fn)
             continue
         for run in runs:
+            ctx.scope(run.W)
             hp = ascii_header_parts(run)
             if hp is None:
                 ctx.error(f"{fn.name}: matrix header line ({run.regime()})", fn)
@@ -210,6 +217,7 @@ def r2_headers(ctx):
             else:
                 ctx.check(ok, inst, run.header.node, None if ok else {"widths": w, "needed for rows": need_rows})
             lr = L.load(run)
+            ctx.scope(run.W, lr.W)
             got = None
             if isinstance(lr.ret, tuple) and len(lr.ret) == 4 and lr.init is not None:
                 got = (lr.init[1][0], lr.init[1][1], lr.ret[2], lr.ret[3]) if len(lr.init[1]) >= 2 else None
@@ -239,6 +247,7 @@ def r2_headers(ctx):
             ctx.error(f"{fn.name}: no admissible regime", fn)
             continue
         for run in runs:
+            ctx.scope(run.W)
             neg = layout == "bigmat" or (layout == "nonbigmat" and run.rows[0] >= (L.rows4() or BASE))
             h = run.header
             ok = h is not None and len(h.items) == 7 and [{"l": "i"}.get(it.code, it.code) for it in h.items] == ["i"] * 5 + ["s", "i"] \
@@ -252,6 +261,7 @@ def r2_headers(ctx):
             ctx.check(ok, f"{fn.name} ({run.regime()}): first record is (24 | cols, {'-rows' if neg else 'rows'}, form, mtype, name padded to 8 bytes | 24)",
                       h.node if h is not None else fn, None if ok else repr(h)[:300])
             lr = L.load(run)
+            ctx.scope(run.W, lr.W)
             got = None
             if isinstance(lr.ret, tuple) and len(lr.ret) == 4 and lr.init is not None and len(lr.init[1]) >= 2:
                 got = (lr.init[1][0], lr.init[1][1], lr.ret[2], lr.ret[3])
@@ -295,6 +305,9 @@ def r3_string_headers(ctx):
             for kind, cplx in SCEN:
                 tag = f"{fn.name} [{scen_txt(kind, cplx)}]"
                 run = first_regime(L.writer(enc, layout, kind, cplx))
+                ctx.scope(run.W if run is not None else None)
+                for _n, why, where in (run.W.crashes if run is not None else ()):
+                    ctx.fail(f"{tag}: every statement on the writer's path can be carried out", where, why)
                 if run is None or run.colhdr is None or run.col is None:
                     ctx.error(f"{tag}: column header record", fn, repr(run.colhdr if run else None)[:200])
                     continue
@@ -343,6 +356,7 @@ def r3_string_headers(ctx):
                         judge(ctx, first, sl, f"{tag}: column header announces (first row + 1) of the rows that are written", run.colhdr.node)
                     else:
                         ctx.check(atom_id(first) is not None or is_rat(first), f"{tag}: column header announces (first row + 1)", run.colhdr.node, nontrivial=False)
+                    ctx.scope(run.W, lr.W)
                     if lr.put is None:
                         if bad:
                             ctx.fail(f"{rdfn.name} <- {tag}: the column is stored", rdfn, bad[0])
@@ -428,6 +442,7 @@ def r3_string_headers(ctx):
                         hw, dw = string_words(run)
                         judge(ctx, hw + dw, per, f"{tag}: a string occupies L + {hwords} words ({hwords} header + 2 per double)", run.strhdr.node)
                     # ---- reader
+                    ctx.scope(run.W, lr.W)
                     if lr.put is None:
                         if bad:
                             ctx.fail(f"{rdfn.name} <- {tag}: decodes the string header the writer produces", rdfn, bad[0], key=f"C04-R3|{rdq}|decode")
@@ -471,6 +486,7 @@ def r3_string_headers(ctx):
                         ctx.check(ok, f"{rdfn.name} <- {tag}: strings are read while words remain and the loop stops when the count reaches zero", node,
                                   None if ok else {"test": repr(btest)[:160], "with words left": t_more, "at zero": at_zero})
                 # ---- both: the sentinel column and the loop that stops at it
+                ctx.scope(run.W)
                 sv = None
                 if run.sentinel is not None:
                     sv = run.sentinel.vals() if run.binary else [f.v for f in run.sentinel.ints]
@@ -483,6 +499,7 @@ def r3_string_headers(ctx):
                     ok = run.sent_data is not None and len(run.sent_data.txt.fields()) == 1
                 ctx.check(ok, f"{tag}: terminates the matrix with the sentinel column cols + 1 holding one value", run.sentinel.node if run.sentinel is not None else fn,
                           None if ok else repr(sv)[:200])
+                ctx.scope(run.W, lr.W)
                 lp = lr.loops(run.col)
                 if not lp:
                     if bad:
@@ -510,6 +527,7 @@ def r3_string_headers(ctx):
                     if other is run or other.raised:
                         continue
                     lo = L.load(other)
+                    ctx.scope(other.W, lo.W)
                     obad = lo.bads()
                     first = None
                     if other.r0 is not None:
@@ -621,7 +639,7 @@ def boundary_sites(ctx, L, rows4):
             if cx * k >= 0 or abs(abs(k) - rows4) > 1:
                 continue
             if id(node) not in sites:
-                sites[id(node)] = (node, op, cx, k, q, origin)
+                sites[id(node)] = (node, op, cx, k, q, origin, W)
     return list(sites.values())
 
 
@@ -636,7 +654,9 @@ def r4_ranges_and_dispatch(ctx):
     sites = boundary_sites(ctx, L, rows4)
     nsite = 0
     origins = set()
-    for node, op, cx, k, q, origin in sorted(sites, key=lambda s: (s[4], getattr(s[0], "lineno", 0))):
+    for node, op, cx, k, q, origin, W_ in sorted(sites, key=lambda s: (s[4], getattr(s[0], "lineno", 0))):
+        ctx.scope(W_)
+
         def truth(x, cx=cx, k=k, op=op):
             val = cx * x + k
             return {"Lt": val < 0, "LtE": val <= 0, "Gt": val > 0, "GtE": val >= 0, "Eq": val == 0, "NotEq": val != 0}.get(op)
@@ -648,6 +668,7 @@ def r4_ranges_and_dispatch(ctx):
         ctx.check(ok, f"{fname}: layout switches to bigmat at rows >= {rows4} (writers, loaders and skipper must agree on the boundary)", node,
                   None if ok else f"`{ast.unparse(node)[:80]}`: a matrix with exactly {rows4} rows would be written in one layout and read in the other",
                   key=f"C04-R4|{q}|bigmat boundary")
+    ctx.scope()
     ok = origins >= {"writer", "loader", "skipper"}
     ctx.check(ok, "bigmat boundary rule bound to comparisons on the writer, the loader and the skipper side", OP4 + ":1",
               None if ok else {"comparisons": nsite, "sides": sorted(origins)}, nontrivial=False)
@@ -655,8 +676,10 @@ def r4_ranges_and_dispatch(ctx):
     worst = None
     code = None
     node = None
+    f2_worlds = []
     for kind, cplx in SCEN:
         for run in L.writer("binary", "nonbigmat", kind, cplx):
+            f2_worlds.append(run.W)
             if run.raised or run.strhdr is None or run.r0 is None or len(run.strhdr.items) != 1 or run.rows[1] is None or run.rows[1] >= rows4:
                 continue
             it = run.strhdr.items[0]
@@ -678,6 +701,7 @@ def r4_ranges_and_dispatch(ctx):
             if hi is not None and (worst is None or hi > worst):
                 worst, code, node = int(hi), it.code, run.strhdr.node
     fnw = wfn(ctx, "binary", "nonbigmat")
+    ctx.scope(*f2_worlds)
     if worst is None or code not in STRUCT_RANGE:
         ctx.error("_write_binary_nonbigmat: packed IS / struct code", fnw, f"{worst} {code}")
     else:
@@ -690,21 +714,25 @@ def r4_ranges_and_dispatch(ctx):
                   key="C04-R4|OP4._write_binary_nonbigmat|IS overflows 'i'")
     # ascii nonbigmat: IS is alone on its line and read back as a whole line
     run = first_regime(L.writer("ascii", "nonbigmat"))
+    ctx.scope(run.W if run is not None else None)
     ok = run is not None and run.strhdr is not None and len(run.strhdr.ints) == 1 and len(run.strhdr.txt.fields()) == 1
     ctx.check(ok, "_write_ascii_nonbigmat: IS is written alone on its line and parsed with int(line)", wfn(ctx, "ascii", "nonbigmat"), nontrivial=False)
     # dimension limits: a dimension that does not fit its header field is refused before anything is written
     gi = S.func_of(ctx, "OP4._get_header_info")
     for enc, rmax, cmax in (("ascii", 99999999, 99999998), ("binary", 2147483647, 2147483647)):
         res = {}
+        lim_worlds = []
         for label, rows, cols in (("rows at the limit", (rmax, rmax), (1, 1)), ("rows above the limit", (rmax + 1, rmax + 1), (1, 1)),
                                   ("cols at the limit", (1, 1), (cmax, cmax)), ("cols above the limit", (1, 1), (cmax + 1, cmax + 1))):
             W = S.base_world(ctx, L.state, rows=rows, cols=cols, split_rows=False)
+            lim_worlds.append(W)
             env = {"f": F.sym("f"), "name": F.sym("name"), "matrix": W.matrix, "fmt": F.sym("digits" if enc == "ascii" else "endian"), "form": F.sym("form")}
             try:
                 S.run_method(W, "self." + WRITERS[(enc, "dense")], env)
                 res[label] = (bool(W.raises), len(W.emits), [q for _n, q in W.raises])
             except S.NeedSplit as e:
                 res[label] = ("undecided", str(e), [])
+        ctx.scope(*lim_worlds)
         ok = res["rows above the limit"][0] is True and res["cols above the limit"][0] is True and res["rows above the limit"][1] == 0 and res["cols above the limit"][1] == 0
         ctx.check(ok, f"{enc} writers: dimensions above ({rmax}, {cmax}) do not fit the {'8/16-digit header fields' if enc == 'ascii' else '32-bit header fields'} "
                       "and are refused before anything is written", gi, None if ok else res)
@@ -720,6 +748,7 @@ def r7_input_canonical(ctx):
     W = S.World(ctx)
     W.opaque |= S.OPAQUE
     W.value_oracle = S.std_oracle("sparse", False, {"issparse": True})
+    ctx.scope(W)
     ev = S.run_func(W, fn, [F.sym("m")], "_ensure_2d_dp")
     ret = ev.returns[-1][0] if ev.returns else None
     if not isinstance(ret, tuple) or len(ret) != 4 or any(is_unknown(x) for x in ret):
@@ -769,6 +798,7 @@ def r7_input_canonical(ctx):
                 return None
             W = S.World(ctx)
             W.value_oracle = oracle
+            ctx.scope(W)
             ev = S.run_func(W, dp, [F.sym("m")], "_ensure_dp")
             ret = ev.returns[-1][0] if ev.returns else None
             m = F.sym("m")
@@ -788,8 +818,10 @@ def r7_input_canonical(ctx):
     # input being complex are exactly the Nastran type (4 / 2) and the reals per entry (2 / 1)
     gi = S.func_of(ctx, "OP4._get_header_info")
     flat = {}
+    gi_worlds = []
     for cplx in (True, False):
         W = S.base_world(ctx, L.state, "ndarray", cplx, rows=(1, 100), split_rows=False)
+        gi_worlds.append(W)
         ev = S.run_method(W, "OP4._get_header_info", {"matrix": W.matrix, "form": F.sym("form"), "is_ascii": S.FALSE})
         ret = ev.returns[-1][0] if ev.returns else None
         if isinstance(ret, tuple):
@@ -798,6 +830,7 @@ def r7_input_canonical(ctx):
             flat[cplx] = [ret.d[k] for k in sorted(ret.d, key=repr)]
         else:
             flat[cplx] = None
+    ctx.scope(*gi_worlds)
     for cplx in (True, False):
         inst = f"_get_header_info: {'type 4 / two doubles per entry for complex' if cplx else 'type 2 / one double per entry for real'} input"
         a, b = flat[True], flat[False]
@@ -823,6 +856,7 @@ def r7_input_canonical(ctx):
             truths = {"binary": enc == "binary", "=sparse": layout, "=endian": "<", "isinstance:Mapping": False}
             W.value_oracle = S.std_oracle("ndarray", True, truths)
             W.none_syms = set()
+            ctx.scope(W)
             fnw = W.table["self.write"]
             ev = S.run_func(W, fnw, [F.sym(k) for k in ("filename", "names", "matrices", "binary", "digits", "endian", "sparse", "forms")], "OP4.write")
             called = []
@@ -1200,6 +1234,7 @@ def r8_symmetry_test(ctx):
     applied to a pair of mirror entries is the same in both arms: same kind (exact / element-wise tolerance / tolerance taken from a reduction
     over the whole matrix) and the same tolerances.  All decided on values (names and spelling irrelevant)."""
     fn, runs = _is_symmetric_runs(ctx)
+    ctx.scope(runs["sparse"][3], runs["dense"][3])
     # every way out of an arm: the final return and the early returns under tests the evaluation could not decide
     tests, consts = {}, {}
     for arm in ("sparse", "dense"):
@@ -1315,6 +1350,50 @@ def r9_no_byte_reinterpretation(ctx):
                "into the matrix)", meth.get("_loadop4_binary"))
 
 
+class Scoped:
+    """The context as a rule sees it: every obligation remembers the evaluation worlds it was derived from (`ctx.scope(writer world, loader
+    world)` names them for what follows), so that a lowering gap in one world only touches what was concluded from that world."""
+
+    def __init__(self, ctx):
+        object.__setattr__(self, "_base", ctx)
+        object.__setattr__(self, "_worlds", None)
+
+    def __getattr__(self, k):
+        return getattr(self._base, k)
+
+    def __setattr__(self, k, v):
+        setattr(self._base, k, v)
+
+    def scope(self, *worlds):
+        object.__setattr__(self, "_worlds", tuple(w for w in worlds if w is not None))
+
+    def _tag(self, n):
+        sc = self._base.__dict__.setdefault("_c04_scopes", {})
+        for o in self._base.obls[n:]:
+            sc[id(o)] = self._worlds
+
+    def ok(self, *a, **k):
+        n = len(self._base.obls)
+        self._base.ok(*a, **k)
+        self._tag(n)
+
+    def fail(self, *a, **k):
+        n = len(self._base.obls)
+        self._base.fail(*a, **k)
+        self._tag(n)
+
+    def error(self, *a, **k):
+        n = len(self._base.obls)
+        self._base.error(*a, **k)
+        self._tag(n)
+
+    def check(self, *a, **k):
+        n = len(self._base.obls)
+        r = self._base.check(*a, **k)
+        self._tag(n)
+        return r
+
+
 def guarded(rule):
     """Safety net shared by all rules.  The evaluator records a *lowering gap* whenever it skips or drops part of an analysed function (a statement
     kind it does not lower, a write whose value it could not build, writes / reads under a test it could not decide, a call of a module-level
@@ -1323,14 +1402,20 @@ def guarded(rule):
     def run(ctx):
         n0 = len(ctx.obls)
         try:
-            rule(ctx)
+            rule(Scoped(ctx))
         finally:
             gaps = list(getattr(ctx, "_c04_gaps", None) or [])
             if gaps:
                 from .core import load_known
                 known = {k["key"] for k in load_known() if k.get("property") == ctx.prop and k.get("status") == "known"}
+                scopes = getattr(ctx, "_c04_scopes", {})
                 for o in ctx.obls[n0:]:
-                    if o.status == "fail" and o.key not in known:
+                    if o.status != "fail" or o.key in known:
+                        continue
+                    worlds = scopes.get(id(o))
+                    # derived from named worlds: only their own gaps count; not attributed: any gap counts
+                    mine = gaps if worlds is None else [g for w in worlds for g in w.own_gaps]
+                    if mine:
                         o.status = "error"
                         o.instance += " [not decided: the evaluation skipped a construct, see the lowering gaps]"
                 # a trace with a hole is never certified either: the gaps are an analysis error of their own (exit 2, never a silent pass)
